@@ -81,6 +81,7 @@ type convTruth struct {
 	must     map[string]map[string]bool // subject digest -> referrers that must be listed
 	may      map[string]map[string]bool // subject digest -> referrers that may be listed (present, name the subject, listed nowhere)
 	arts     map[string]*MMan           // artifact digest -> parsed manifest (for descriptors)
+	wrongMT  map[string]bool            // manifests some legacy index describes with the wrong media type
 	subjects []string
 }
 
@@ -89,7 +90,7 @@ func (w *World) seedConv(root, repo string, cr convRepo) *convTruth {
 	objs := w.x.p.Objs
 	when := time.Now().Add(-240 * time.Hour)
 	tr := &convTruth{blobs: map[string][]byte{}, topMans: map[string]string{}, tags: map[string]string{}, fbTags: map[string]bool{},
-		must: map[string]map[string]bool{}, may: map[string]map[string]bool{}, arts: map[string]*MMan{}}
+		must: map[string]map[string]bool{}, may: map[string]map[string]bool{}, arts: map[string]*MMan{}, wrongMT: map[string]bool{}}
 	putBlob := func(d string, data []byte) {
 		_ = writeFileAged(blobPath(root, repo, d), data, when)
 		tr.blobs[d] = data
@@ -177,6 +178,7 @@ func (w *World) seedConv(root, repo string, cr convRepo) *convTruth {
 			case "wrongsize":
 				desc.Size++
 			case "wrongmt":
+				tr.wrongMT[d] = true
 				if desc.MediaType == mtOCIManifest {
 					desc.MediaType = mtDockManifest
 				} else {
@@ -349,7 +351,7 @@ func engineConvert(x *X) {
 		x.mixs("reopen")
 		for _, repo := range p.Repos {
 			o2 := w.observe(repo)
-			if d := obsDiff(ref[repo], o2); len(d) > 0 {
+			if d := obsDiff(ref[repo], o2, truth[repo].wrongMT); len(d) > 0 {
 				kind, _, _ := strings.Cut(d[0], " ")
 				x.viol([]string{"C17"}, "convert.not-repeatable", kind, fmt.Sprintf("%s: opening the converted directory again changes the answers: %s", repo, strings.Join(d, "; ")))
 				break
@@ -390,7 +392,7 @@ func engineConvert(x *X) {
 			}
 			for _, repo := range p.Repos {
 				o := rw.observe(repo)
-				if d := obsDiff(ref[repo], o); len(d) > 0 {
+				if d := obsDiff(ref[repo], o, truth[repo].wrongMT); len(d) > 0 {
 					kind, _, _ := strings.Cut(d[0], " ")
 					x.viol([]string{"C17"}, "convert.interrupted-differs", kind+" after "+sig, fmt.Sprintf("%s, then repeated by a fresh server: %s answers differ from the uninterrupted conversion: %s", where, repo, strings.Join(d, "; ")))
 					break
@@ -425,10 +427,22 @@ func engineConvert(x *X) {
 	}
 }
 
-func obsDiff(a, b *obs) []string {
+// obsDiff compares two observations. A manifest that the legacy data itself describes with two different media types
+// (the fallback index says one thing, the manifest another, and the fallback index stays in the repository under its
+// tag) is served under whichever description is found first: the Content-Type of those is not compared.
+func obsDiff(a, b *obs, loose map[string]bool) []string {
 	var d []string
+	norm := func(k, v string) string {
+		if kind, dg, _ := strings.Cut(k, " "); kind == "man" && loose[dg] {
+			f := strings.Fields(v)
+			if len(f) == 4 {
+				return f[0] + " * " + f[2] + " " + f[3]
+			}
+		}
+		return v
+	}
 	for _, k := range sortedKeys(a.items) {
-		if b.items[k] != a.items[k] {
+		if norm(k, b.items[k]) != norm(k, a.items[k]) {
 			d = append(d, fmt.Sprintf("%s: %q -> %q", k, a.items[k], b.items[k]))
 		}
 	}
